@@ -53,7 +53,7 @@ theorem C08_pe_datum_partial (t : TrigFns K) (alg alg' : Alg)
     (hpe : @projectEquations K (trigOfField t) net = .ok (np, u))
     (hpe' : @projectEquations K (trigOfField t) net' = .ok (np', u'))
     (hsame : np' = { np with minx := np'.minx })
-    (hna : ∀ ob ∈ revisedObs u.net, NoAlias ob) (hm0 : np.m0 ≠ 0)
+    (hm0 : np.m0 ≠ 0)
     (Pc : Matrix (Fin (toProblem np).m) (Fin (toProblem np).m) K) (hPc : Sigma np * Pc = 1)
     (hyp : Net.SolverHyp alg np) (hyp' : Net.SolverHyp alg' { np with minx := np'.minx })
     (a a' : NetAnswer K) (h : netSolve alg np = .ok a) (h' : netSolve alg' { np with minx := np'.minx } = .ok a') :
@@ -71,7 +71,7 @@ theorem C08_pe_datum_partial (t : TrigFns K) (alg alg' : Alg)
   have hn : np'.n = np.n := by rw [hsame]
   obtain ⟨c1, c2, c3, _, c5, c6, c7, c8, _, _⟩ :=
     Gama.Props.C08.C08_net_datum alg alg' np np'.minx (Gama.Props.C01.C01_pe_dimsN t net np u hpe)
-      (@Gama.Props.C01.C01_pe_rowsOK K (trigOfField t) net np u hpe hna) hm0 Pc hPc hyp hyp' a a' h h'
+      (@Gama.Props.C01.C01_pe_rowsOK K (trigOfField t) net np u hpe) hm0 Pc hPc hyp hyp' a a' h h'
   exact ⟨⟨m1, m2, m3⟩, ⟨m1', m2', fun i hi => hn ▸ m3' i hi⟩, c1, c2, c3, c5, c6, c7, c8⟩
 
 /-- **choice of datum changes only the datum, for two calls of `project_equations()`** on networks that differ
@@ -83,7 +83,7 @@ theorem C08_pe_datum (t : TrigFns K) (alg alg' : Alg)
     (net net' : PE.Net K) (hd : PE.DatumEq net net') (np np' : NetProblem K) (u u' : Unknowns K)
     (hpe : @projectEquations K (trigOfField t) net = .ok (np, u))
     (hpe' : @projectEquations K (trigOfField t) net' = .ok (np', u'))
-    (hna : ∀ ob ∈ revisedObs u.net, NoAlias ob) (hm0 : np.m0 ≠ 0)
+    (hm0 : np.m0 ≠ 0)
     (Pc : Matrix (Fin (toProblem np).m) (Fin (toProblem np).m) K) (hPc : Sigma np * Pc = 1)
     (hyp : Net.SolverHyp alg np) (hyp' : Net.SolverHyp alg' { np with minx := np'.minx })
     (a a' : NetAnswer K) (h : netSolve alg np = .ok a) (h' : netSolve alg' { np with minx := np'.minx } = .ok a') :
@@ -98,7 +98,7 @@ theorem C08_pe_datum (t : TrigFns K) (alg alg' : Alg)
     (∀ g, (toProblem np).A *ᵥ g = 0 →
       ∑ i ∈ (Reg.subset np'.minx).toFinset np.n, toVec (toProblem np).n a'.x i * g i = 0) := by
   have hsame := (@PE.pe_datum_same K (trigOfField t) net net' hd np np' u u' hpe hpe').1
-  exact ⟨hsame, C08_pe_datum_partial t alg alg' net net' np np' u u' hpe hpe' hsame hna hm0 Pc hPc hyp hyp' a a' h h'⟩
+  exact ⟨hsame, C08_pe_datum_partial t alg alg' net net' np np' u u' hpe hpe' hsame hm0 Pc hPc hyp hyp' a a' h h'⟩
 
 /-- **… with ONE input-side solver hypothesis per run**: `InputGap alg` for the first list, `InputGap alg'` for the second,
     on the same design matrix and weight matrix; `RegListOK` of both lists is DERIVED from the calls (`C01_pe_regListOK`) -/
@@ -106,7 +106,7 @@ theorem C08_pe_datum_gap (t : TrigFns K) (alg alg' : Alg)
     (net net' : PE.Net K) (hd : PE.DatumEq net net') (np np' : NetProblem K) (u u' : Unknowns K)
     (hpe : @projectEquations K (trigOfField t) net = .ok (np, u))
     (hpe' : @projectEquations K (trigOfField t) net' = .ok (np', u'))
-    (hna : ∀ ob ∈ revisedObs u.net, NoAlias ob) (hm0 : np.m0 ≠ 0)
+    (hm0 : np.m0 ≠ 0)
     (Pc : Matrix (Fin (toProblem np).m) (Fin (toProblem np).m) K) (hPc : Sigma np * Pc = 1) {τ τ' : K}
     (hg : InputGap alg (toProblem np).A ((np.m0 * np.m0) • Pc) (toProblem np).S τ)
     (hg' : InputGap alg' (toProblem np).A ((np.m0 * np.m0) • Pc) ((Reg.subset np'.minx).toFinset np.n) τ')
@@ -121,7 +121,7 @@ theorem C08_pe_datum_gap (t : TrigFns K) (alg alg' : Alg)
       ∑ i ∈ (Reg.subset np'.minx).toFinset np.n, toVec (toProblem np).n a'.x i * g i = 0) := by
   have hsame := (@PE.pe_datum_same K (trigOfField t) net net' hd np np' u u' hpe hpe').1
   have hdim := Gama.Props.C01.C01_pe_dimsN t net np u hpe
-  have hrows := @Gama.Props.C01.C01_pe_rowsOK K (trigOfField t) net np u hpe hna
+  have hrows := @Gama.Props.C01.C01_pe_rowsOK K (trigOfField t) net np u hpe
   have hreg := Gama.Props.C01.C01_pe_regListOK t net np u hpe
   have hreg' : Env.RegListOK (toProblem { np with minx := np'.minx }) := by
     have := Gama.Props.C01.C01_pe_regListOK t net' np' u' hpe'
